@@ -148,6 +148,16 @@ def live (b : Bytes) : SrcKind → Bool
   | .bytes cap => cap ≥ b.length && cap > 0
   | .script s => benign ⟨b, s⟩ || finalErrLive ⟨b, s⟩
 
+/-- split the tokens of a message sequence at "/" -/
+def splitSeq (ts : List String) : List (List String) :=
+  ts.foldr (fun t acc => if t == "/" then [] :: acc else
+    match acc with
+    | cur :: rest => (t :: cur) :: rest
+    | [] => [[t]]) [[]]
+
+def parseSeq (ts : List String) : Option (List Val) :=
+  (splitSeq ts).foldr (fun g acc => do let v ← parseVal g; let r ← acc; pure (v :: r)) (some [])
+
 /-! ## model column -/
 
 def modelWire (args : List String) : String :=
@@ -176,6 +186,19 @@ def modelWire (args : List String) : String :=
       | .panic s => "PANIC " ++ s
       | .oob => "OOB"
     | _, _ => "bad-op"
+  | "w-seq" :: _ :: vt =>
+    -- one reused writer, Flush after each message: every epoch starts from an empty log
+    match parseSeq vt with
+    | some vs =>
+      if !vs.all goArgs then "bad-op" else
+      vs.foldl (fun acc v =>
+        if !acc.startsWith "ok" then acc else
+        match bwWrite ⟨[], none⟩ zeros v with
+        | .ok w => acc ++ " " ++ toHex w.bytes
+        | .err e => "err " ++ rerrStr e
+        | .panic s => "PANIC " ++ s
+        | .oob => "OOB") "ok"
+    | none => "bad-op"
   | "len" :: vt =>
     match parseVal vt with
     | some v => s!"ok {length v}"
@@ -294,6 +317,14 @@ def verdictWire (args : List String) (impl : String) : String :=
       if !decide v.wf || st.failed then "na" else
       if impl == "ok " ++ toHex (st.log.bytes ++ enc v) then "ok" else s!"bad:{propOf v}:stream-write"
     | _, _ => "na"
+  | "w-seq" :: _ :: vt =>
+    match parseSeq vt with
+    | some vs =>
+      if !vs.all (fun v => decide v.wf) then "na" else
+      let want := vs.foldl (fun acc v => acc ++ " " ++ toHex (enc v)) "ok"
+      let prop := if vs.all (fun v => propOf v == "C12") then "C12" else "C01"
+      if impl == want then "ok" else s!"bad:{prop}:stream-write-seq"
+    | none => "na"
   | "len" :: vt =>
     match parseVal vt with
     | some v =>
